@@ -143,3 +143,42 @@ RG_PROJECT_ITEMS = [('src/mbi/region_graph.py', 'RegionGraph.project', RG_PROJEC
 def project_hooks(c):
     from .cvec import _SetOrderHooks
     return SiteSpecHooks(c.get('sites', []), inner=_SetOrderHooks(real_dicts=(), vector_dicts=(), sites=()))
+
+
+def canonical_regions_report():
+    """Regions are dictionary keys: two intersections with the same attribute SET must be the same key, or a separator is represented
+    twice and its message double counted (C16 exactness, C18).  Decided on build_graph's text: every intersection region added to the
+    closure is `tuple(sorted(...))` of a set.  Another spelling: UNDECIDED (it may still be canonical), never a violation."""
+    import ast, time
+    from .. import deductive, frontend
+    from ..vc import solver as S
+    rel, q = 'src/mbi/region_graph.py', 'RegionGraph.build_graph'
+    r = deductive.FunctionReport(rel, q + ' [intersection regions have one canonical spelling]')
+    t0 = time.time()
+    try:
+        fn, _src, sha = frontend.get_function(rel, q)
+        # names added to `regions` inside the closure loop, and how they are built
+        added = []
+        for n in ast.walk(fn):
+            if isinstance(n, ast.Call) and ast.unparse(n.func) in ('regions.update', 'regions.add') and n.args:
+                for x in ast.walk(n.args[0]):
+                    if isinstance(x, ast.Name):
+                        added.append(x.id)
+        ok, why = bool(added), 'no region is added to the closure' if not added else ''
+        for nm in set(added):
+            binds = [a.value for a in ast.walk(fn) if isinstance(a, ast.Assign) for t in a.targets if isinstance(t, ast.Name) and t.id == nm]
+            for b in binds:
+                txt = ast.unparse(b).replace(' ', '')
+                if not (txt.startswith('tuple(sorted(') and txt.endswith('))')):
+                    ok, why = False, '`%s = %s` is not tuple(sorted(<set>))' % (nm, ast.unparse(b)[:60])
+        ob = S.Obligation('%s::%s/intersection-regions-are-sorted-tuples' % (rel, q), [], None, function='%s::%s' % (rel, q), kind='wiring')
+        ob.verdict = 'discharged' if ok else 'unknown'
+        ob.backend, ob.seconds, ob.reason = 'syntactic (AST match)', 0.0, why
+        ob.meta = {'base': ob.name}
+        r.obligations.append(ob)
+        r.sha = sha
+    except frontend.MissingAnchor as e:
+        r.undecided = 'anchor missing: %s' % e
+    r.vacuity = []
+    r.seconds = time.time() - t0
+    return r
